@@ -172,4 +172,66 @@ mod verif_witness_c09_sweep {
         }
         assert_eq!(bad, 0);
     }
+
+    /// "every timing of stop": a stop (or quit) is honoured whatever else arrives in the same poll of the command channel —
+    /// the poll drains the whole channel, so `stop` may be followed (or preceded) by ucinewgame / debug / ponderhit / a
+    /// position or go command that is ignored during a search.  Direct: after check_messages the stop flag is set.
+    /// End to end: a depth-limited search polled N nodes in ends as an interrupted one (flag still set when it returns).
+    #[test]
+    fn verif_witness_c09_interruption_stop_with_company() {
+        fn company(k: usize) -> Option<SearchMessage> {
+            match k {
+                0 => None,
+                1 => Some(SearchMessage::UciUciNewGame),
+                2 => Some(SearchMessage::UciDebug(true)),
+                3 => Some(SearchMessage::UciPonderHit),
+                4 => Some(SearchMessage::UciGo(Go::default())),
+                5 => Some(SearchMessage::UciPositionFrom(Fen::default(), Vec::new())),
+                _ => Some(SearchMessage::UciDebug(false)),
+            }
+        }
+        let names = ["-", "ucinewgame", "debug on", "ponderhit", "go", "position", "debug off"];
+        let mut bad = 0;
+        for quit in [false, true] {
+            for before in 0..7 {
+                for after in 0..7 {
+                    let (uci_tx, _uci_rx) = channel();
+                    let (search_tx, search_rx) = channel();
+                    let mut search = Search::new(Arc::new(CommandUciTx::new(uci_tx)), search_rx, SimpleHeuristic, MvvLvaMoveOrder, EngineOptions::default());
+                    search.reset_for_go();
+                    if let Some(m) = company(before) { search_tx.send(m).unwrap(); }
+                    search_tx.send(if quit { SearchMessage::UciQuit } else { SearchMessage::UciStop }).unwrap();
+                    if let Some(m) = company(after) { search_tx.send(m).unwrap(); }
+                    search.check_messages();
+                    if !search.flags.stop_as_soon_as_possible || (quit && !search.flags.quit_as_soon_as_possible) {
+                        if bad < 5 { println!("FAILING-INPUT: one poll drains [{}, {}, {}]: afterwards the search does not know it was told to stop (stop flag {}, quit flag {})", names[before], if quit { "quit" } else { "stop" }, names[after], search.flags.stop_as_soon_as_possible, search.flags.quit_as_soon_as_possible); }
+                        bad += 1;
+                    }
+                }
+            }
+        }
+        // end to end
+        let parsed = Fen::from_str("rnbqkbnr/pppppppp/8/8/8/8/PPPPPPPP/RNBQKBNR w KQkq - 0 1").unwrap();
+        for after in 1..7 {
+            let (uci_tx, uci_rx) = channel();
+            let (search_tx, search_rx) = channel();
+            let mut search = Search::new(Arc::new(CommandUciTx::new(uci_tx)), search_rx, SimpleHeuristic, MvvLvaMoveOrder, EngineOptions::default());
+            search.set_position_from(parsed.clone(), Vec::new());
+            search_tx.send(SearchMessage::UciStop).unwrap();
+            search_tx.send(company(after).unwrap()).unwrap();
+            search.params.go = Go { depth: Some(5), ..Go::default() };   // bounded so that a lost stop cannot hang the probe
+            search.reset_for_go();
+            search.state.metrics.last.negamax_nodes = 100_000 - 700;
+            search.state.is_running = true;
+            let (best, _ponder) = search.best_move();
+            search.state.is_running = false;
+            let mut last_depth = None;
+            while let Ok(c) = uci_rx.try_recv() { if let UciTxCommand::Info { info } = c { if info.depth.is_some() { last_depth = info.depth; } } }
+            if !search.flags.stop_as_soon_as_possible || last_depth >= Some(5) {
+                if bad < 8 { println!("FAILING-INPUT: startpos `go depth 5` with [stop, {}] picked up by the first poll (700 nodes in): the search ran on to depth {:?} (bestmove {:?}) instead of stopping", names[after], last_depth, best.map(|m| m.to_string())); }
+                bad += 1;
+            }
+        }
+        assert_eq!(bad, 0);
+    }
 }
